@@ -81,6 +81,11 @@ CORE: list[tuple[str, list]] = [
     # a name / override bound to a group whose elements may match empty (closure zero times, empty join, empty pattern)
     ('named_group_with_closure', [('start', S(N('x', GRP(S(T('a'), REP(T('b'))))), OPT(T('c'))))]),
     ('override_group_with_join', [('start', S(OV(GRP(S(T('a'), JOIN(T(','), T('b')), P('c?')))), OPT(T('a'))))]),
+    # optionals whose body can match empty and can also FAIL (lookaheads): "nullable" is not "cannot fail"; a failing body means the optional is skipped
+    ('optional_lookahead', [('start', S(T('a'), OPT(AND(T('b'))), OPT(T('c'))))]),
+    ('optional_neg_lookahead', [('start', S(T('a'), OPT(NOT(T('b'))), A(T('b'), T('c'))))]),
+    ('optional_lookahead_closure', [('start', S(N('x', T('a')), OPT(S(AND(T('b')), NL('y', REP(T('b'))))), EOF_))]),
+    ('optional_group_lookahead_in_rule', [('start', S(C('r'), OPT(T('c')))), ('r', S(T('a'), OPT(GRP(AND(T('b'))))))]),
 ]
 
 START_VARIANTS = [
